@@ -12,6 +12,10 @@ observed only through the behaviour of later requests. Families (each enumerated
   X  dangling connector references inside a subsignal resource
   E  end to end: prepare() on iCE40/IceStorm (.pcf), ECP5/Trellis (.lpf), Gowin/Apicula (.cst): request sequences
      executed inside elaborate(), constraint files parsed, compared with the top-level ports of the emitted RTLIL
+  EC every declared clock of G.CLOCKS (fractional / sub-MHz / period-given) + a clock on the internal net "vf$netclk"
+  ET the EC tables + decoration tables on 15 further platform/toolchain template sets (MachXO2, Nexus Oxide/Radiant,
+     Diamond, iCECube2, Gowin IDE, Quartus/Mistral, Vivado/Symbiflow/Xray/ISE, QuickLogic): pins, attributes, clocks,
+     and every Tcl double-quoted word must decode without a live [ or $ substitution
 """
 import copy
 import itertools
@@ -250,35 +254,104 @@ def w_histories(task):
 
 
 # ------------------------------------------------------------------ end to end
-PLATFORMS = ("ice40", "ecp5", "gowin")
+PLATFORMS = ("ice40", "ecp5", "gowin")          # the three open flows the full E table list runs on
+NETCLK = "vf$netclk"                              # internal clock net; `$` must survive every quoting layer
+
+# kind -> (vendor class, class attributes, toolchain, [(file suffix, format)], renders clocks, renders attrs,
+#          needs the RTLIL->Verilog conversion (Yosys) to render its plan)
+_ICE = ("LatticeICE40Platform", {"device": "iCE40HX1K", "package": "TQ144"})
+_ECP = ("LatticeECP5Platform", {"device": "LFE5U-25F", "package": "BG381", "speed": "6"})
+_XO2 = ("LatticeMachXO2Platform", {"device": "LCMXO2-1200HC", "package": "TG100", "speed": "4", "grade": "C"})
+_NEX = ("LatticePlatform", {"device": "LIFCL-40", "package": "BG400", "speed": "8", "grade": "C"})
+_GOW = ("GowinPlatform", {"part": "GW1N-LV1QN48C6/I5", "family": "GW1N-1"})
+_ALT = ("AlteraPlatform", {"device": "5CSEMA4", "package": "U23", "speed": "C6"})
+_X7 = ("XilinxPlatform", {"device": "xc7a35t", "package": "cpg236", "speed": "1"})
+_X6 = ("XilinxPlatform", {"device": "xc6slx9", "package": "tqg144", "speed": "2"})
+_QL = ("QuicklogicPlatform", {"device": "ql-eos-s3", "package": "wlcsp", "osc_freq": 10_000_000, "osc_div": 2})
+PLATFORM_SPECS = {
+    "ice40":             (*_ICE, "IceStorm", [(".pcf", "pcf")], True, False, False),
+    "ecp5":              (*_ECP, "Trellis", [(".lpf", "lpf")], True, True, False),
+    "gowin":             (*_GOW, "Apicula", [(".cst", "cst")], False, True, False),
+    "machxo2-trellis":   (*_XO2, "Trellis", [(".lpf", "lpf")], True, True, False),
+    "nexus-oxide":       (*_NEX, "Oxide", [(".pdc", "tcl")], True, True, False),
+    "altera-mistral":    (*_ALT, "Mistral", [(".qsf", "tcl")], False, True, False),
+    "ice40-lse":         (*_ICE, "LSE-iCECube2", [(".pcf", "pcf"), (".sdc", "tcl")], True, False, True),
+    "ice40-synplify":    (*_ICE, "Synplify-iCECube2", [(".pcf", "pcf"), (".sdc", "tcl")], True, False, True),
+    "ecp5-diamond":      (*_ECP, "Diamond", [(".lpf", "lpf"), (".sdc", "tcl-diamond")], True, True, True),
+    "machxo2-diamond":   (*_XO2, "Diamond", [(".lpf", "lpf"), (".sdc", "tcl-diamond")], True, True, True),
+    "nexus-radiant":     (*_NEX, "Radiant", [(".pdc", "tcl"), (".sdc", "tcl")], True, True, True),
+    "gowin-gowin":       (*_GOW, "Gowin", [(".cst", "cst"), (".sdc", "tcl-gowin")], True, True, True),
+    "altera-quartus":    (*_ALT, "Quartus", [(".qsf", "tcl"), (".sdc", "tcl")], True, True, True),
+    "xilinx7-vivado":    (*_X7, "Vivado", [(".xdc", "tcl")], True, True, True),
+    "xilinx7-symbiflow": (*_X7, "Symbiflow", [(".pcf", "pcf"), (".xdc", "tcl"), (".sdc", "tcl-escaped")], True, True, True),
+    "xilinx7-xray":      (*_X7, "Xray", [(".xdc", "tcl")], False, True, True),
+    "xilinx6-ise":       (*_X6, "ISE", [(".ucf", "ucf")], True, True, True),
+    "quicklogic":        (*_QL, None, [(".pcf", "pcf"), (".xdc", "tcl"), (".sdc", "tcl-escaped")], True, True, True),
+}
+TEMPLATE_PLATFORMS = [k for k in PLATFORM_SPECS if k not in PLATFORMS]
+
+
+def _extract(fmt, text):
+    if fmt == "pcf":
+        return R.extract_pcf(text)
+    if fmt == "lpf":
+        return R.extract_lpf(text)
+    if fmt == "cst":
+        return R.extract_cst(text)
+    if fmt == "ucf":
+        return R.extract_ucf(text)
+    if fmt == "tcl":
+        return R.extract_tcl(text)
+    if fmt == "tcl-diamond":
+        return R.extract_tcl(text, diamond=True)
+    if fmt == "tcl-gowin":
+        return R.extract_tcl(text, comment="//")
+    if fmt == "tcl-escaped":
+        return R.extract_tcl(text)
+    raise ValueError(fmt)
+
+
+class _Capture:
+    """harness-side interception (nothing in /repo is touched): records the RTLIL text the platform generated (the
+    vendor flows do not put it into the plan) and, where the plan needs Yosys only to turn that RTLIL into Verilog,
+    replaces that conversion by a placeholder so that the constraint / script templates still render"""
+    def __init__(self, stub_verilog):
+        self.stub_verilog, self.rtlil = stub_verilog, None
+
+    def __enter__(self):
+        from amaranth.back import rtlil, verilog
+        self._rtlil, self._verilog = rtlil, verilog
+        self._orig_cf, self._orig_cv = rtlil.convert_fragment, verilog._convert_rtlil_text
+
+        def convert_fragment(*args, **kwargs):
+            out = self._orig_cf(*args, **kwargs)
+            self.rtlil = out[0]
+            return out
+        rtlil.convert_fragment = convert_fragment
+        if self.stub_verilog:
+            verilog._convert_rtlil_text = lambda text, **kw: "/* Verilog not rendered: no Yosys in this environment */"
+        return self
+
+    def __exit__(self, *exc):
+        self._rtlil.convert_fragment, self._verilog._convert_rtlil_text = self._orig_cf, self._orig_cv
 
 
 def _make_platform(kind, table):
+    import amaranth.vendor as vendor
     resources, connectors = G.build_objects(table)
-    if kind == "ice40":
-        from amaranth.vendor import LatticeICE40Platform
-        cls = type("P", (LatticeICE40Platform,), {"device": "iCE40HX1K", "package": "TQ144",
-                                                  "resources": resources, "connectors": connectors})
-        return cls(toolchain="IceStorm"), ".pcf", R.parse_pcf
-    if kind == "ecp5":
-        from amaranth.vendor import LatticeECP5Platform
-        cls = type("P", (LatticeECP5Platform,), {"device": "LFE5U-25F", "package": "BG381", "speed": "6",
-                                                 "resources": resources, "connectors": connectors})
-        return cls(toolchain="Trellis"), ".lpf", R.parse_lpf
-    if kind == "gowin":
-        from amaranth.vendor import GowinPlatform
-        cls = type("P", (GowinPlatform,), {"part": "GW1N-LV1QN48C6/I5", "family": "GW1N-1",
-                                           "resources": resources, "connectors": connectors})
-        return cls(toolchain="Apicula"), ".cst", R.parse_cst
-    raise ValueError(kind)
+    clsname, attrs, toolchain, files, has_clocks, has_attrs, needs_verilog = PLATFORM_SPECS[kind]
+    cls = type("P", (getattr(vendor, clsname),), {**attrs, "resources": resources, "connectors": connectors})
+    plat = cls(toolchain=toolchain) if toolchain else cls()
+    return plat, files, has_clocks, has_attrs, needs_verilog
 
 
 def run_e2e(kind, table, history, net_clock=None):
     """-> dict(errs [(kind, text)], counts)"""
     from amaranth.hdl import Module, Signal, Cat, Instance, Elaboratable
     from amaranth.lib import io
-    plat, suffix, parser = _make_platform(kind, table)
+    plat, file_specs, has_clocks, has_attrs, needs_verilog = _make_platform(kind, table)
     box = {"granted": [], "hist": None}
+    ice40 = kind.startswith("ice40")
 
     class Top(Elaboratable):
         def elaborate(self, platform):
@@ -291,7 +364,7 @@ def run_e2e(kind, table, history, net_clock=None):
                     tag = f"b{i}_" + "_".join(path)
                     if eff_d == "-":
                         d = R.PORT_DIR[leaf["dir"]]
-                        if d == "io" and leaf["kind"] == "diff" and kind == "ice40":
+                        if d == "io" and leaf["kind"] == "diff" and ice40:
                             d = "i"                     # iCE40 has no bidirectional differential buffer
                         buf = io.Buffer(d, port)
                         m.submodules[tag] = buf
@@ -316,7 +389,7 @@ def run_e2e(kind, table, history, net_clock=None):
             src = Signal(max(1, sum(len(o) for o in outs)))
             m.submodules.src = Instance("VF_SRC", o_q=src)
             if net_clock is not None:       # a clock constraint on an internal net (not a resource)
-                netclk = Signal(name="vf_netclk")
+                netclk = Signal(name=NETCLK)
                 m.submodules.osc = Instance("VF_OSC", o_clk=netclk)
                 ins.append(netclk)
                 platform.add_clock_constraint(netclk, G.period_of(net_clock))
@@ -327,9 +400,10 @@ def run_e2e(kind, table, history, net_clock=None):
             m.submodules.sink = Instance("VF_SINK", i_d=Cat(ins) if ins else Signal())
             return m
 
-    res = {"errs": [], "bits": 0, "clocks": 0, "ports": 0, "hist": None}
+    res = {"errs": [], "bits": 0, "clocks": 0, "ports": 0, "attrs": 0, "quoted": 0, "quoted_special": 0, "hist": None}
     try:
-        plan = plat.build(Top(), name="top", do_build=False)
+        with _Capture(needs_verilog) as cap:
+            plan = plat.build(Top(), name="top", do_build=False)
     except Exception as e:
         if box["hist"] is not None and (box["hist"]["mismatch"] or box["hist"]["port_errs"]):
             res["hist"] = box["hist"]
@@ -341,15 +415,29 @@ def run_e2e(kind, table, history, net_clock=None):
     if box["hist"]["mismatch"]:
         return res
     files = {k: (v if isinstance(v, str) else v.decode()) for k, v in plan.files.items()}
+    loc, attrs_got, freq, escaped_names = [], [], [], False
     try:
-        loc, freq = parser(files["top" + suffix])
-        top_ports = R.parse_top_ports(files["top.il"])
-    except (R.ParseError, KeyError) as e:
+        for suffix, fmt in file_specs:
+            ex = _extract(fmt, files["top" + suffix])
+            loc += ex["loc"]
+            attrs_got += ex["attrs"]
+            freq += ex["freq"]
+            escaped_names |= fmt == "tcl-escaped"
+            res["quoted"] += len(ex.get("quoted", ()))
+            res["quoted_special"] += sum(1 for q in ex.get("quoted", ()) if "[" in q or "$" in q)
+            for raw in ex["quote_errs"]:
+                res["errs"].append(("tcl-quote", f"top{suffix}: the quoted word {raw} contains a live substitution "
+                                                 f"(unescaped [ or $ after decoding the backslash escapes)"))
+        top_ports = R.parse_top_ports(cap.rtlil)
+    except (R.ParseError, KeyError, TypeError, ValueError) as e:
         res["errs"].append(("unparsable", f"constraint file / netlist not parsable: {type(e).__name__}: {str(e)[:80]}"))
         return res
+    if not has_clocks:
+        freq = None
     # observed: name of the IOPort objects handed out for granted leaves; declared: their pins (reference)
     cmap = R.connector_map(table)
-    decl, clocks = {}, {}
+    decl, clocks, decl_attrs = {}, {}, {}
+    resnode = {(r["name"], r["number"]): r["node"] for r in table["resources"]}
     for i, path, leaf, port in box["granted"]:
         pins = R.leaf_pins(leaf, cmap)
         halves = [("io", port.io)] if leaf["kind"] == "pins" else [("p", port.p), ("n", port.n)]
@@ -357,9 +445,10 @@ def run_e2e(kind, table, history, net_clock=None):
             if iop.name in decl:
                 res["errs"].append(("duplicate-port-name", f"two granted ports are both called {iop.name}"))
             decl[iop.name] = pins[half]
+            decl_attrs[iop.name] = R.expected_attrs(resnode[history[i]["name"], history[i]["number"]], path)
         if leaf.get("clock_mhz"):
             clocks[halves[0][1].name] = R.clock_hz(leaf["clock_mhz"])
-    want = {}
+    want, want_attrs = {}, {}
     for name, width in top_ports:
         if name not in decl:
             res["errs"].append(("unknown-top-port", f"top-level port {name} does not belong to a granted request"))
@@ -370,6 +459,7 @@ def run_e2e(kind, table, history, net_clock=None):
             continue
         for bit, pin in zip(R.bit_names(name, width), decl[name]):
             want[bit] = pin
+            want_attrs[bit] = decl_attrs[name]
     got = {}
     for bit, pin in loc:
         got.setdefault(bit, []).append(pin)
@@ -381,8 +471,22 @@ def run_e2e(kind, table, history, net_clock=None):
     for bit in got:
         if bit not in want:
             res["errs"].append(("extra-pin-constraint", f"constraint for {bit} -> {got[bit]} but no such top-level port bit"))
+    if has_attrs:
+        got_attrs = {}
+        for bit, k, v in attrs_got:
+            got_attrs.setdefault(bit, []).append((k, v))
+        for bit, wa in want_attrs.items():
+            res["attrs"] += 1
+            ga = got_attrs.get(bit, [])
+            if sorted(ga) != sorted(wa.items()):
+                res["errs"].append(("attrs", f"port bit {bit} declares attributes {wa}, constraint files carry {ga}"))
+        for bit in got_attrs:
+            if bit not in want_attrs:
+                res["errs"].append(("extra-attr-constraint", f"attributes {got_attrs[bit]} for {bit} but no such top-level port bit"))
+    esc = R.ascii_escape if escaped_names else (lambda x: x)
     if freq is not None:
-        top_names = {n for n, _w in top_ports}
+        top_names = {esc(n) for n, _w in top_ports}
+        clocks = {esc(n): hz for n, hz in clocks.items()}
         gotf = {}
         for name, hz in freq:
             gotf.setdefault(name, []).append(hz)
@@ -395,7 +499,7 @@ def run_e2e(kind, table, history, net_clock=None):
                 res["errs"].append(("clock", f"clock port {name} declared {hz} Hz, constraint file has {g}"))
         net_seen = 0
         for name in gotf:
-            if net_clock is not None and name not in top_names and name.split(".")[-1] == "vf_netclk":
+            if net_clock is not None and name not in top_names and name == esc(NETCLK):
                 net_seen += 1
                 hz = R.clock_hz(net_clock)
                 res["clocks"] += 1
@@ -405,7 +509,7 @@ def run_e2e(kind, table, history, net_clock=None):
                 res["errs"].append(("extra-clock-constraint",
                                     f"clock constraint {gotf[name]} Hz on {name}, which is not a declared clock of a granted port of the design"))
         if net_clock is not None and net_seen != 1:
-            res["errs"].append(("net-clock", f"{net_seen} constraints for the constrained clock net vf_netclk"))
+            res["errs"].append(("net-clock", f"{net_seen} constraints name the constrained clock net {NETCLK}"))
     return res
 
 
@@ -414,7 +518,7 @@ def e_histories(kind, table, maxlen, pin_path):
     alternating the deprecated default-direction (Pin + automatic buffer) path with dir="-" """
     keys = [(r["name"], r["number"]) for r in table["resources"]]
     no_pin = set()
-    if kind == "ice40":        # iCE40 has no bidirectional differential buffer: keep those resources on the port path
+    if kind.startswith("ice40"):   # iCE40 has no bidirectional differential buffer: keep those resources on the port path
         for r in table["resources"]:
             if any(l["kind"] == "diff" and l["dir"] == "io" for _p, l in R.leaves(r["node"])):
                 no_pin.add((r["name"], r["number"]))
@@ -431,6 +535,7 @@ def e_histories(kind, table, maxlen, pin_path):
 def w_e2e(task):
     kind, tables, pin_path = task
     cov = {"e2e_builds": 0, "e2e_port_bits_checked": 0, "e2e_clock_constraints_checked": 0, "e2e_top_ports": 0,
+           "e2e_attr_sets_checked": 0, "e2e_tcl_quoted_words_checked": 0, "e2e_tcl_quoted_words_with_bracket_or_dollar": 0,
            "e2e_builds_with_refused_request": 0, "transitions": 0, "mismatches": 0, "traces_validated_against_impl": 0}
     out = {"cov": cov, "samples": [], "violations": [], "flags": set()}
     for table, maxlen, *rest in tables:
@@ -442,6 +547,9 @@ def w_e2e(task):
             cov["e2e_port_bits_checked"] += r["bits"]
             cov["e2e_clock_constraints_checked"] += r["clocks"]
             cov["e2e_top_ports"] += r["ports"]
+            cov["e2e_attr_sets_checked"] += r["attrs"]
+            cov["e2e_tcl_quoted_words_checked"] += r["quoted"]
+            cov["e2e_tcl_quoted_words_with_bracket_or_dollar"] += r["quoted_special"]
             h = r["hist"]
             viol = []
             if h is not None:
@@ -519,6 +627,11 @@ def families(rep):
     # EC (both tiers, complete): every declared clock of G.CLOCKS (fractional / sub-MHz / period-given) on a single pin,
     # a diff pair and a subsignal, plus a clock constraint on an internal net; one request, both request paths
     ec = [(t, 1, G.CLOCKS[(k + 7) % len(G.CLOCKS)]) for k, t in enumerate(G.ec_tables())]
+    # ET (templates): every other platform / toolchain whose plan renders offline (see PLATFORM_SPECS): the EC tables and
+    # every 300th (40th thorough) decoration table without its probes (multi-bit ports, attributes at both levels,
+    # connector depths, diff pairs), each with a clock on the internal net "vf$netclk"; one request, both request paths
+    et = ec + [({**t, "resources": t["resources"][:1]}, 1, G.CLOCKS[k % len(G.CLOCKS)]) for k, t in enumerate(d1[::300 if q else 40])]
+    fam["ET"] = (et, None)
     fam["E"] = ((e_tables[::12] + e_d1[::450] if q else e_tables + e_d1[::40]) + ec, None)
     return fam
 
@@ -538,6 +651,9 @@ def run(rep):
     e_tables, _ = fam["E"]
     for kind in PLATFORMS:
         for ch in chunks(e_tables, 3):
+            tasks.append(("e2e", (kind, ch, True)))
+    for kind in TEMPLATE_PLATFORMS:
+        for ch in chunks(fam["ET"][0], 15):
             tasks.append(("e2e", (kind, ch, True)))
     tasks = rotate(tasks, rep.seed)
     allflags, by_family, viols, samples = set(), {}, [], {}
@@ -577,6 +693,8 @@ def run(rep):
                "ResourceManager in lock step with the reference allocator; states = distinct (table, granted set, pin->owner map); "
                "E: every permutation of every subset of the resources requested inside elaborate() of a design prepared for "
                "iCE40 (.pcf), ECP5 (.lpf), Gowin (.cst), constraint files parsed and compared with the top-level ports of the RTLIL; "
+               "ET: the same oracle (pins, attributes, clocks, exactly once) on 15 further platform/toolchain template sets, whose Tcl "
+               "files are read with a Tcl word reader: every double-quoted word must decode without a live [ or $ substitution; "
                "clock constraints (port and internal net) are parsed as numbers and compared with the declared frequency to 1e-6 relative")
     rep.setcov("bounds", {"pins": 4, "resources_per_table": 3, "history_length": {k: v[1] for k, v in fam.items() if v[1]},
                           "tables": {k: len(v[0]) for k, v in fam.items()}, "connector_chain_depth": 3})
@@ -593,6 +711,16 @@ def run(rep):
                 "declared clocks contain no fractional-MHz / sub-MHz frequency")
     rep.setcov("declared_clocks_hz", sorted(round(R.clock_hz(c), 3) for c in G.CLOCKS))
     rep.require(rep.cov.get("e2e_builds_with_refused_request", 0) > 0, "end-to-end: no build contained a refused request")
+    rep.require(rep.cov.get("e2e_attr_sets_checked", 0) > 0, "end-to-end: no attribute sets were compared")
+    rep.require(rep.cov.get("e2e_tcl_quoted_words_with_bracket_or_dollar", 0) > 0,
+                "end-to-end: no Tcl-quoted name containing [ or $ was decoded")
+    rep.setcov("platforms", {k: {"toolchain": v[2], "files": [f for f, _ in v[3]], "clocks_rendered": v[4], "attrs_rendered": v[5],
+                                 "verilog_conversion_stubbed": v[6]} for k, v in PLATFORM_SPECS.items()})
+    rep.assume("toolchains whose plan contains Verilog (iCECube2, Diamond, Radiant, Gowin IDE, Quartus, Vivado, ISE, Symbiflow, "
+               "Xray, QuickLogic) need Yosys to *run* (RTLIL -> Verilog); the harness replaces that one conversion by a placeholder "
+               "so that their constraint / script templates render; the RTLIL the platform generated is captured for the port list")
+    rep.assume("Diamond reads SDC names with one extra level of backslash escaping (quirk stated in build/plat.py): its quoted "
+               "words are un-doubled before Tcl decoding")
     rep.assume("the Apicula flow renders no timing constraint file, so declared clocks are compared for iCE40 and ECP5 only; "
                "the vendor (non open) toolchain templates need Yosys to render and are not covered")
     rep.assume("data rates above 2 are platform specific: both outcomes are accepted, the allocation must follow the outcome")
